@@ -99,7 +99,7 @@ def c181(ctx):
         cg = [x for x in K.compare_guards(f, b) if x["op"] == "Eq" and "#0" in (K.src_names(f, x["a"]) | K.src_names(f, x["b"]))]
         cb = K.guarded_by_call(f, b, r"::can_batch$")
         # `taken == 0 || can_batch`: batch is reachable through the taken==0 true edge without can_batch
-        via_zero = any(P.reach(f, [(dict(f.blocks[bb].succs)["otherwise"], 0)], [b], avoid=set(P.call_points(f, r"::can_batch$")))
+        via_zero = any(P.reach(f, [(dict(f.blocks[bb].succs)["sw:1"], 0)], [b], avoid=set(P.call_points(f, r"::can_batch$")))
                        for bb in [blk.idx for blk in P.switch_blocks(f) if any(s["k"] == "bin" and s["op"] == "Eq" and "taken" in K.var_names(f, s["st"]["rv"]["a"]) for s in K.cond_sources(f, blk.idx))])
         ctx.check(R, f, "first-always-taken", via_zero, "the first waiter is batched without consulting can_batch (taken == 0 ||)",
                   "the head's own input can be refused by can_batch (it would never get an output)", pt=b)
